@@ -1049,6 +1049,9 @@ class Interp:
         if isinstance(obj, AClassRef):
             if name == '__name__':
                 return AStr(obj.name)
+            if name == '__mro__' and self.sm.has_cls(obj.name):
+                # the classes of the package in resolution order (`object` and foreign bases are not represented)
+                return tuple(AClassRef(c) for c in self.sm.mro(obj.name))
             if self.sm.has_cls(obj.name):
                 mth = self.sm.find_method(obj.name, name)
                 if mth is not None:
@@ -1318,6 +1321,12 @@ class Interp:
         # python containers
         if isinstance(a, (tuple, list)) and isinstance(b, (tuple, list)) and t is ast.Add:
             return a + b
+        if t is ast.Mult and ((isinstance(a, (tuple, list)) and isinstance(b, Rat)) or (isinstance(b, (tuple, list)) and isinstance(a, Rat))):
+            # sequence repetition: [x] * 3 (the elements are the same objects, as in python)
+            seq, n = (a, b) if isinstance(a, (tuple, list)) else (b, a)
+            if not (n.is_const() and n.const_value().denominator == 1):
+                raise AnalysisError("repetition of a python sequence by a symbolic count")
+            return seq * max(0, int(n.const_value()))
         if isinstance(a, (str, AStr)):
             return AStr('<str>')
         # objects with operator methods
